@@ -759,6 +759,13 @@ func (e *Engine) runInvisible(st *State, id ThreadID) []*State {
 						s.Dead = true
 						return
 					}
+					if sig, ok := r.(abortSig); ok && sig.kind == "UNMODELLED" {
+						// this path ran into something the engine does not model: the run is inconclusive, but the
+						// other paths are still explored (they may hold a violation)
+						e.inconclusive(sig.kind + ": " + sig.msg)
+						s.Dead = true
+						return
+					}
 					panic(r)
 				}
 			}()
@@ -1367,6 +1374,13 @@ func (e *Engine) runToEnd(st *State, id ThreadID) []*State {
 			defer func() {
 				if r := recover(); r != nil {
 					if _, ok := r.(deadSig); ok {
+						s.Dead = true
+						return
+					}
+					if sig, ok := r.(abortSig); ok && sig.kind == "UNMODELLED" {
+						// this path ran into something the engine does not model: the run is inconclusive, but the
+						// other paths are still explored (they may hold a violation)
+						e.inconclusive(sig.kind + ": " + sig.msg)
 						s.Dead = true
 						return
 					}
